@@ -219,7 +219,10 @@ class PropertyGroupValidator(BaseValidator):
 
     @classmethod
     def validate(cls, name: str, value: PropertyGroup, valid: str) -> None:
-        if (value is not None) and (value.property_group_type != valid):
+        if not hasattr(value, "property_group_type"):
+            return  # identifiers (accepted by the 'types' rule) are resolved and checked once promoted
+
+        if value.property_group_type != valid:
             raise PropertyGroupValidationError(name, value, valid)
 
 
